@@ -104,6 +104,14 @@ func TraverseStringsFunc[T any](v T, fn func(v string) (string, error)) (T, erro
 			copy.Set(copyValue)
 
 		case reflect.Struct:
+			// A struct with unexported fields (e.g. the time.Time a YAML
+			// timestamp decodes to) cannot be rebuilt field by field
+			for i := range v.NumField() {
+				if !v.Type().Field(i).IsExported() {
+					copy.Set(v)
+					return nil
+				}
+			}
 			// Loop over each field and call traverseFunc recursively
 			for i := range v.NumField() {
 				if err := traverseFunc(copy.Field(i), v.Field(i)); err != nil {
